@@ -1,0 +1,23 @@
+//go:build verif
+
+// Contracts for the slipvc verifier (see /verif/DESIGN.md). Comment-only file:
+// with the build tag off it does not exist for the compiler, with the tag on
+// it adds no code.
+
+package slip
+
+// C05: NormalizeNumber returns its two arguments in one common numeric
+// representation; fixnum pairs are returned as they are.
+//@ func slip.NormalizeNumber
+//@   property C05
+//@   ensures same-type: tag(n0) == tag(n1)
+//@   ensures fix-fix: (is(v0, Fixnum) && is(v1, Fixnum)) ==> (n0 == v0 && n1 == v1)
+//@   ensures canary-swap: (is(v0, Fixnum) && is(v1, Fixnum)) ==> (n0 == v1)
+//@   loop v0: invariant fix-kept: is(old(v0), Fixnum) ==> v0 == old(v0)
+
+//@ func slip.(*SignedByte).AsFixOrBig
+//@   property C05
+//@   ensures fix-or-big: is(result, Fixnum) || is(result, ptr(Bignum))
+//@ func slip.(*UnsignedByte).AsFixOrBig
+//@   property C05
+//@   ensures fix-or-big: is(result, Fixnum) || is(result, ptr(Bignum))
